@@ -135,7 +135,8 @@ def _build(repo, flavour, out):
     for f in sorted(os.listdir(HARNESS)):
         if f.startswith("standalone_") and f.endswith(".cpp"):
             name = f[len("standalone_"):-4]
-            if _run([CXX] + COMMON + FLAV[flavour] + inc + LINK[flavour] +
+            rec = ["-fsanitize-recover=undefined", "-pthread"] if flavour == "san" else ["-pthread"]
+            if _run([CXX] + COMMON + FLAV[flavour] + rec + inc + LINK[flavour] +
                     ["-o", os.path.join(out, name), os.path.join(HARNESS, f)], log):
                 raise RuntimeError("standalone failed\n" + "\n".join(log))
     shutil.rmtree(os.path.join(out, "obj"), ignore_errors=True)
